@@ -513,7 +513,7 @@ def _check_loader(prog: Program, res: Result, lfi, sec_tabs):
         if m is None:
             raise AnalysisError(f"{WORKER}: ** expansion into an unknown setter {ast.unparse(call.func)}")
         params = [p for p in m.params() if p not in ("self",)]
-        explicit = {k.arg for k in call.keywords if k.arg}
+        explicit = {k_ for k_ in bind_args(m, call)}
         tab, schema_name = sec_tabs[(sec, "")]
         want = set(tab)
         free = set(params) - explicit
@@ -616,15 +616,17 @@ def _check_roundtrip(prog: Program, res: Result, sec_tabs):
         out = {}
         for n in ast.walk(lfi.node):
             if isinstance(n, ast.Call) and isinstance(n.func, ast.Attribute) and n.func.attr == setter_name:
-                for k in n.keywords:
-                    if k.arg and isinstance(k.value, ast.Subscript) and isinstance(k.value.slice, ast.Constant):
-                        out[k.arg] = (ast.unparse(k.value.value), k.value.slice.value)
-                    elif k.arg and isinstance(k.value, ast.Name):
+                sm = mgr.methods.get(setter_name)
+                bound = bind_args(sm, n) if sm is not None else {k.arg: k.value for k in n.keywords if k.arg}
+                for karg, kval in bound.items():
+                    if isinstance(kval, ast.Subscript) and isinstance(kval.slice, ast.Constant):
+                        out[karg] = (ast.unparse(kval.value), kval.slice.value)
+                    elif isinstance(kval, ast.Name):
                         # local bound from .get
                         for s in ast.walk(lfi.node):
-                            if isinstance(s, ast.Assign) and len(s.targets) == 1 and isinstance(s.targets[0], ast.Name) and s.targets[0].id == k.value.id \
+                            if isinstance(s, ast.Assign) and len(s.targets) == 1 and isinstance(s.targets[0], ast.Name) and s.targets[0].id == kval.id \
                                     and isinstance(s.value, ast.Call) and isinstance(s.value.func, ast.Attribute) and s.value.func.attr == "get" and s.value.args:
-                                out[k.arg] = (ast.unparse(s.value.func.value), s.value.args[0].value)
+                                out[karg] = (ast.unparse(s.value.func.value), s.value.args[0].value)
         return out
 
     for mem, (cls, schema_name, setter) in sorted(GEOM_CLASSES.items()):
